@@ -1334,7 +1334,7 @@ pub fn decode_mbtiles(path: &Path) -> Result<Decoded, String> {
 pub struct TarMember {
 	pub name: Vec<u8>,
 	pub data: Vec<u8>,
-	/// b'0' regular file, b'5' directory
+	/// b'0' regular file, b'5' directory, b'1' hard link / b'2' symbolic link (then `data` is the link name, size 0)
 	pub typeflag: u8,
 	/// put the leading path components into the ustar `prefix` field (split at a '/')
 	pub use_prefix: bool,
@@ -1380,7 +1380,14 @@ pub fn ustar_header(m: &TarMember) -> Result<[u8; 512], String> {
 	octal(&mut h[100..108], if m.typeflag == b'5' { 0o755 } else { 0o644 });
 	octal(&mut h[108..116], 0);
 	octal(&mut h[116..124], 0);
-	octal(&mut h[124..136], if m.typeflag == b'5' { 0 } else { m.data.len() as u64 });
+	let is_link = m.typeflag == b'1' || m.typeflag == b'2';
+	octal(&mut h[124..136], if m.typeflag == b'5' || is_link { 0 } else { m.data.len() as u64 });
+	if is_link {
+		if m.data.len() > 100 || m.data.contains(&0) {
+			return Err("link name does not fit into a ustar header".into());
+		}
+		h[157..157 + m.data.len()].copy_from_slice(&m.data);
+	}
 	octal(&mut h[136..148], 1_700_000_000);
 	h[156] = m.typeflag;
 	h[257..263].copy_from_slice(b"ustar\0");
@@ -1405,7 +1412,7 @@ pub fn encode_tar(members: &[TarMember], extra_zero_blocks: usize) -> Result<Vec
 	let mut out = vec![];
 	for m in members {
 		out.extend_from_slice(&ustar_header(m)?);
-		if m.typeflag != b'5' {
+		if m.typeflag != b'5' && m.typeflag != b'1' && m.typeflag != b'2' {
 			out.extend_from_slice(&m.data);
 			let pad = (512 - m.data.len() % 512) % 512;
 			out.extend(std::iter::repeat(0u8).take(pad));
@@ -1622,15 +1629,19 @@ pub fn decode_tar(b: &[u8]) -> Result<Decoded, String> {
 	let es = parse_tar(b)?;
 	let mut files = vec![];
 	let mut n_dirs = 0;
+	let mut n_links = 0;
 	for e in es {
 		match e.typeflag {
 			b'0' | 0 => files.push((String::from_utf8(e.name).map_err(|_| "member name is not UTF-8")?, e.data)),
 			b'5' => n_dirs += 1,
+			// link members: the decoder does not resolve them (counted; the harness states what it expects of a reader)
+			b'1' | b'2' => n_links += 1,
 			t => return Err(format!("unexpected member type {t}")),
 		}
 	}
 	let mut d = collect_named(files, true)?;
 	d.info.insert("dir_members".into(), n_dirs);
+	d.info.insert("link_members".into(), n_links);
 	Ok(d)
 }
 
@@ -1645,6 +1656,149 @@ pub fn write_dir(root: &Path, files: &[(String, Vec<u8>)]) -> Result<(), String>
 	}
 	Ok(())
 }
+/// file-system freedoms of a tile directory: here the "encoder" is the file system. Everything below is a tree that
+/// `cp -rL` / `cat <root>/<z>/<x>/<y>.<ext>` would see exactly like the plain tree – links behave like their targets.
+#[derive(Clone, Debug, Default)]
+pub struct FsLayout {
+	/// tile files: 0 plain, 1 relative symlink, 2 absolute symlink, 3 chain of two symlinks, 4 hard link
+	pub file_link: u8,
+	/// which tile files are linked: 1 = every other one, 2 = all
+	pub file_share: u8,
+	/// one x directory is a symlink into the store: 0 no, 1 relative target, 2 absolute target
+	pub x_link: u8,
+	/// one z directory is a symlink into the store: 0 no, 1 relative target, 2 absolute target
+	pub z_link: u8,
+	/// extra empty directories (an unused zoom level, an unused column, a non-numeric name)
+	pub empty_dirs: bool,
+	/// non-tile files next to tiles in z and x directories (README, .DS_Store, tiles.json, Thumbs.db, a sub directory)
+	pub deep_strays: bool,
+	/// 0 canonical numbers, 1 leading zeros in z, x and y, 2 a y name with 200 leading zeros
+	pub digits: u8,
+	/// 0 none, 1 a regular file with a numeric name inside a z directory, 2 a regular file with a numeric name in the root
+	pub wrong_kind: u8,
+}
+impl FsLayout {
+	pub fn is_plain(&self) -> bool {
+		self.file_link == 0 && self.x_link == 0 && self.z_link == 0 && !self.empty_dirs && !self.deep_strays && self.digits == 0 && self.wrong_kind == 0
+	}
+	pub fn has_links(&self) -> bool {
+		self.file_link != 0 || self.x_link != 0 || self.z_link != 0
+	}
+}
+pub fn store_of(root: &Path) -> std::path::PathBuf {
+	root.parent().unwrap().join(format!("{}.store", root.file_name().unwrap().to_string_lossy()))
+}
+/// write `files` (relative names, tiles as z/x/y.ext) below `root` using the freedoms of `lay`; linked material lives in
+/// the sibling directory `store_of(root)`. Returns the logical listing (name as a link-following walk sees it, content).
+pub fn write_dir_fs(root: &Path, files: &[(String, Vec<u8>)], lay: &FsLayout) -> Result<Vec<(String, Vec<u8>)>, String> {
+	use std::os::unix::fs::symlink;
+	let es = |e: std::io::Error| e.to_string();
+	std::fs::create_dir_all(root).map_err(es)?;
+	let store = store_of(root);
+	let store_name = store.file_name().unwrap().to_string_lossy().to_string();
+	if lay.has_links() {
+		std::fs::create_dir_all(&store).map_err(es)?;
+	}
+	// logical names
+	let mut listed: Vec<(String, Vec<u8>)> = vec![];
+	for (name, data) in files {
+		let parts: Vec<&str> = name.split('/').collect();
+		let is_tile = parts.len() == 3 && parts[0].bytes().all(|c| c.is_ascii_digit()) && parts[1].bytes().all(|c| c.is_ascii_digit());
+		if is_tile && lay.digits != 0 {
+			let (y, ext) = parts[2].split_at(parts[2].find('.').unwrap_or(parts[2].len()));
+			let n = match lay.digits {
+				1 => format!("0{}/00{}/0{}{}", parts[0], parts[1], y, ext),
+				_ => format!("{}/{}/{}{}{}", parts[0], parts[1], "0".repeat(200), y, ext),
+			};
+			listed.push((n, data.clone()));
+		} else {
+			listed.push((name.clone(), data.clone()));
+		}
+	}
+	let tiles: Vec<usize> = listed.iter().enumerate().filter(|(_, (n, _))| n.split('/').count() == 3).map(|(i, _)| i).collect();
+	let zx: Vec<(String, String)> = tiles.iter().map(|i| { let mut p = listed[*i].0.split('/'); (p.next().unwrap().to_string(), p.next().unwrap().to_string()) }).collect();
+	let first: Option<(String, String)> = zx.first().cloned();
+	let z_linked: Option<String> = if lay.z_link != 0 { first.as_ref().map(|f| f.0.clone()) } else { None };
+	let x_linked: Option<(String, String)> = if lay.x_link != 0 { zx.last().cloned().filter(|(z, _)| Some(z) != z_linked.as_ref()) } else { None };
+	let used_z: BTreeSet<u8> = zx.iter().filter_map(|(z, _)| z.parse::<u8>().ok()).collect();
+	let free_z: Option<String> = (0..=31u8).rev().find(|z| !used_z.contains(z)).map(|z| z.to_string());
+	if lay.deep_strays {
+		if let Some((z, x)) = &first {
+			listed.push((format!("{z}/README.txt"), b"readme".to_vec()));
+			listed.push((format!("{z}/{x}/.DS_Store"), vec![0, 0, 0, 1]));
+			listed.push((format!("{z}/{x}/tiles.json"), b"{}".to_vec()));
+			listed.push((format!("{z}/{x}/README"), b"x".to_vec()));
+			listed.push((format!("{z}/{x}/Thumbs.db"), vec![9]));
+			listed.push((format!("{z}/{x}/sub/1.txt"), vec![1]));
+			listed.push(("Tiles.JSON".into(), b"{\"name\":\"not me\"}".to_vec()));
+		}
+	}
+	match (lay.wrong_kind, &first, &free_z) {
+		(1, Some((z, _)), _) => listed.push((format!("{z}/4294967294"), b"not a directory".to_vec())),
+		(2, _, Some(z)) => listed.push((z.clone(), b"not a directory".to_vec())),
+		_ => {}
+	}
+	// physical tree
+	let mut made_z = false;
+	let mut made_x = false;
+	for (i, (name, data)) in listed.iter().enumerate() {
+		let parts: Vec<&str> = name.split('/').collect();
+		let in_z = parts.len() >= 2 && Some(parts[0].to_string()) == z_linked;
+		let in_x = parts.len() >= 3 && Some((parts[0].to_string(), parts[1].to_string())) == x_linked;
+		let phys = if in_z {
+			if !made_z {
+				made_z = true;
+				std::fs::create_dir_all(store.join("zdir")).map_err(es)?;
+				let target = if lay.z_link == 1 { std::path::PathBuf::from(format!("../{store_name}/zdir")) } else { store.join("zdir") };
+				symlink(target, root.join(parts[0])).map_err(es)?;
+			}
+			store.join("zdir").join(parts[1..].join("/"))
+		} else if in_x {
+			if !made_x {
+				made_x = true;
+				std::fs::create_dir_all(store.join("xdir")).map_err(es)?;
+				std::fs::create_dir_all(root.join(parts[0])).map_err(es)?;
+				let target = if lay.x_link == 1 { std::path::PathBuf::from(format!("../../{store_name}/xdir")) } else { store.join("xdir") };
+				symlink(target, root.join(parts[0]).join(parts[1])).map_err(es)?;
+			}
+			store.join("xdir").join(parts[2..].join("/"))
+		} else {
+			root.join(name)
+		};
+		std::fs::create_dir_all(phys.parent().unwrap()).map_err(es)?;
+		let linkable = parts.len() == 3 && !in_z && !in_x && tiles.contains(&i) && lay.file_link != 0 && (lay.file_share == 2 || i % 2 == 0);
+		if !linkable {
+			std::fs::write(&phys, data).map_err(es)?;
+			continue;
+		}
+		let f = store.join(format!("f{i}"));
+		std::fs::write(&f, data).map_err(es)?;
+		match lay.file_link {
+			1 => symlink(format!("../../../{store_name}/f{i}"), &phys).map_err(es)?,
+			2 => symlink(&f, &phys).map_err(es)?,
+			3 => {
+				symlink(format!("f{i}"), store.join(format!("l{i}"))).map_err(es)?;
+				symlink(store.join(format!("l{i}")), &phys).map_err(es)?;
+			}
+			_ => std::fs::hard_link(&f, &phys).map_err(es)?,
+		}
+	}
+	if lay.empty_dirs {
+		if let Some(z) = &free_z {
+			if lay.wrong_kind != 2 {
+				std::fs::create_dir_all(root.join(z)).map_err(es)?;
+			}
+		}
+		std::fs::create_dir_all(root.join("tmp")).map_err(es)?;
+		if let Some((z, _)) = &first {
+			if z_linked.is_none() {
+				std::fs::create_dir_all(root.join(z).join("4294967295")).map_err(es)?;
+				std::fs::create_dir_all(root.join(z).join("lost+found")).map_err(es)?;
+			}
+		}
+	}
+	Ok(listed)
+}
 /// all regular files below root as (relative name with '/', content), sorted by name
 pub fn list_dir(root: &Path) -> Result<Vec<(String, Vec<u8>)>, String> {
 	fn rec(dir: &Path, rel: &str, out: &mut Vec<(String, Vec<u8>)>) -> Result<(), String> {
@@ -1652,7 +1806,8 @@ pub fn list_dir(root: &Path) -> Result<Vec<(String, Vec<u8>)>, String> {
 			let e = e.map_err(|e| e.to_string())?;
 			let name = e.file_name().into_string().map_err(|_| "file name is not UTF-8")?;
 			let r = if rel.is_empty() { name.clone() } else { format!("{rel}/{name}") };
-			let ft = e.file_type().map_err(|e| e.to_string())?;
+			// links behave like their targets (`metadata` follows symbolic links, `DirEntry::file_type` would not)
+			let ft = std::fs::metadata(e.path()).map_err(|e| format!("{r}: {e}"))?.file_type();
 			if ft.is_dir() {
 				rec(&e.path(), &r, out)?;
 			} else if ft.is_file() {
